@@ -35,6 +35,10 @@ pub struct World {
     pub intern: HashMap<Vec<u8>, i64>,
     // (n, idx, fragment) -> cid of the whole message
     pub frags: HashMap<(usize, usize, Vec<u8>), i64>,
+    // cid -> message bytes (to check a slice against the exact fragment it claims to be)
+    pub bodies: HashMap<i64, Vec<u8>>,
+    // (conn, sender side, channel, reliable?, message id) -> cid, learnt from the first slice (1200 bytes, carries the tag)
+    pub slicemap: HashMap<(u64, char, u8, bool, u64), i64>,
     // flushes[(conn, side)] = list of flushes, each a list of packets
     pub flushes: HashMap<(u64, char), Vec<Vec<Pkt>>>,
     pub inflight: HashMap<(u64, char), Vec<(usize, usize)>>,
@@ -153,6 +157,8 @@ impl World {
             midbase,
             intern: HashMap::new(),
             frags: HashMap::new(),
+            bodies: HashMap::new(),
+            slicemap: HashMap::new(),
             flushes: HashMap::new(),
             inflight: HashMap::new(),
             tclock: HashMap::new(),
@@ -240,6 +246,7 @@ impl World {
     fn register(&mut self, tag: u64, bytes: &[u8]) -> i64 {
         let cid = *self.intern.entry(bytes.to_vec()).or_insert(tag as i64);
         if bytes.len() > SLICE_SIZE {
+            self.bodies.entry(cid).or_insert_with(|| bytes.to_vec());
             let n = bytes.len().div_ceil(SLICE_SIZE);
             for idx in 0..n {
                 let s = idx * SLICE_SIZE;
@@ -251,7 +258,13 @@ impl World {
     }
 
     /// Abstract description of a datagram, using the crate's own decoder.
-    pub fn describe(&self, b: &[u8]) -> Value {
+    pub fn describe(&mut self, b: &[u8]) -> Value {
+        self.describe_ctx(b, None)
+    }
+
+    /// `ctx` = (connection, sending side) for packets produced by an endpoint: slices are then attributed to the
+    /// message whose first slice was seen under the same (channel, message id), and checked byte for byte.
+    pub fn describe_ctx(&mut self, b: &[u8], ctx: Option<(u64, char)>) -> Value {
         let nosl = json!({"mid":0,"idx":0,"n":0,"len":0,"mcid":-1});
         let parsed = guarded(|| {
             let mut o = octets::Octets::with_slice(b);
@@ -263,11 +276,33 @@ impl World {
             Err(_) => return json!({"seq":0,"kind":"PANIC","ch":-1,"bytes":b.len(),"msgs":[],"sl":nosl,"ranges":[],"pay":0}),
         };
         let seq = rel(p.sequence(), self.seqbase);
-        let slice_desc = |s: &Slice| {
-            let mcid = *self
+        let (pch, prel) = match &p {
+            Packet::ReliableSlice { channel_id, .. } => (*channel_id, true),
+            Packet::UnreliableSlice { channel_id, .. } => (*channel_id, false),
+            _ => (0, false),
+        };
+        let mut slice_desc = |s: &Slice| {
+            let by_content = *self
                 .frags
                 .get(&(s.num_slices, s.slice_index, s.payload.to_vec()))
                 .unwrap_or(&-1);
+            let mut mcid = by_content;
+            if let Some((conn, side)) = ctx {
+                let key = (conn, side, pch, prel, s.message_id);
+                if s.slice_index == 0 && by_content >= 0 {
+                    self.slicemap.insert(key, by_content);
+                }
+                if let Some(&m) = self.slicemap.get(&key) {
+                    // exact check: is this payload fragment `slice_index` of message m ?
+                    let ok = self.bodies.get(&m).map_or(false, |body| {
+                        let n = body.len().div_ceil(SLICE_SIZE);
+                        let st = s.slice_index.saturating_mul(SLICE_SIZE);
+                        let en = (st + SLICE_SIZE).min(body.len());
+                        n == s.num_slices && st < body.len() && body[st..en] == s.payload[..]
+                    });
+                    mcid = if ok { m } else { -1 };
+                }
+            }
             json!({"mid":rel(s.message_id,self.midbase),"idx":small(s.slice_index as u64),"n":small(s.num_slices as u64),
                    "len":s.payload.len(),"mcid":mcid})
         };
@@ -689,7 +724,7 @@ impl<W: Write> Runner<W> {
             Ok(Some(p)) => p.clone(),
             _ => vec![],
         };
-        let descs: Vec<Value> = pkts.iter().map(|b| w.describe(b)).collect();
+        let descs: Vec<Value> = pkts.iter().map(|b| w.describe_ctx(b, Some((conn, side)))).collect();
         let fl = {
             let f = w.flushes.entry((conn, side)).or_default();
             f.push(
